@@ -32,6 +32,17 @@ class List(Environment):
                 pass
             return Command.invoke(self, tex)
 
+        def preArgument(self, arg, tex):
+            # Whether the counter is stepped depends on the optional label
+            pass
+
+        def postArgument(self, arg, value, tex):
+            # \item[label] does not step the list counter
+            if arg.index == 0:
+                if value is not None:
+                    self.counter = ''
+                self.refstepcounter(tex)
+
         def digest(self, tokens):
             """
             Items should absorb all of the content within that 
